@@ -183,6 +183,15 @@ def coherent(t, m, report):
 
 
 def _mutate_inplace(x):
+    # first a renaming that keeps every id's width (an implementation may then write into the id array it has)
+    for ax in ('observation', 'sample'):
+        ids = [str(i) for i in x.ids(ax)]
+        new = {i: i.swapcase() for i in ids}
+        if ids and len(set(new.values())) == len(ids) and all(k != v for k, v in new.items()):
+            try:
+                x.update_ids(new, axis=ax, inplace=True)
+            except Exception:
+                pass
     for ax in ('observation', 'sample'):
         ids = list(x.ids(ax))
         if ids:
